@@ -1,0 +1,73 @@
+/*
+ * SPDX-FileCopyrightText: 2026 pistache verification hooks
+ *
+ * SPDX-License-Identifier: Apache-2.0
+ */
+
+/* verif_hooks.h
+
+   Yield points and lock-scope markers for runtime verification of the
+   header-only concurrent code (async.h, mailbox.h).  They expand to nothing
+   unless PISTACHE_VERIF is defined; with it, each point calls a user-installed
+   function pointer (null by default), which a test scheduler uses to take
+   control of the interleaving.
+*/
+
+#pragma once
+
+#ifdef PISTACHE_VERIF
+
+namespace Pistache::Verif
+{
+    using YieldFn = void (*)(int site, const void* object);
+    using LockFn  = void (*)(const void* mutex, int acquire);
+
+    inline YieldFn g_yield = nullptr;
+    inline LockFn g_lock   = nullptr;
+
+    // Declared on the line before a std::unique_lock: asks the scheduler for the
+    // (modelled) lock first, reports the release after the real guard is gone.
+    struct LockScope
+    {
+        explicit LockScope(const void* mutex)
+            : mutex_(mutex)
+        {
+            if (auto f = g_lock)
+                f(mutex_, 1);
+        }
+        ~LockScope()
+        {
+            if (auto f = g_lock)
+                f(mutex_, 0);
+        }
+        LockScope(const LockScope&) = delete;
+        LockScope& operator=(const LockScope&) = delete;
+
+    private:
+        const void* mutex_;
+    };
+} // namespace Pistache::Verif
+
+#define PISTACHE_VERIF_CAT_I(a, b) a##b
+#define PISTACHE_VERIF_CAT(a, b) PISTACHE_VERIF_CAT_I(a, b)
+#define PISTACHE_VERIF_YIELD(site, object)          \
+    do                                              \
+    {                                               \
+        if (auto verif_f = ::Pistache::Verif::g_yield) \
+            verif_f(site, object);                  \
+    } while (0)
+#define PISTACHE_VERIF_LOCK_SCOPE(mutex) \
+    ::Pistache::Verif::LockScope PISTACHE_VERIF_CAT(verif_lock_scope_, __LINE__)(&(mutex))
+
+#else
+
+#define PISTACHE_VERIF_YIELD(site, object) \
+    do                                     \
+    {                                      \
+    } while (0)
+#define PISTACHE_VERIF_LOCK_SCOPE(mutex) \
+    do                                   \
+    {                                    \
+    } while (0)
+
+#endif
